@@ -7,8 +7,31 @@ import _lslocks
 import vlib
 
 
+def bind_lock_model(ctx):
+    """FairRwLock.tla (the semantics LsLocks assumes) vs the real tokio::sync::RwLock"""
+    cfg = ctx.pick("FairRwLock_3", "FairRwLock_4")
+    res = vlib.tlc("FairRwLock", cfg, workers=4, timeout=900)
+    if res.violated:
+        raise vlib.ToolError("FairRwLock violates its own invariant %s" % res.violated)
+    ctx.add_tlc(res)
+    beh = [j for t, j in res.json if t == "BEHAVIOUR"]
+    path = ctx.workfile("fair.ndjson")
+    with open(path, "w") as f:
+        for b in beh:
+            f.write(json.dumps(b) + "\n")
+    out = vlib.ndjson(vlib.run_bin("vh_ls_fairlock", [path], timeout=900).stdout)
+    summ = [o["summary"] for o in out if "summary" in o]
+    if not summ or summ[0]["behaviours"] != len(beh):
+        raise vlib.ToolError("vh_ls_fairlock incomplete")
+    if summ[0]["mismatches"]:
+        raise vlib.ToolError("the FIFO lock model does not describe tokio's RwLock: %s" % json.dumps(out[0])[:800])
+    ctx.validated(len(beh))
+    ctx.note("lock_model_behaviours_matched_on_tokio", len(beh))
+
+
 def run(ctx):
     progs, inline, panics = _lslocks.mine(ctx)
+    bind_lock_model(ctx)
     segs = _lslocks.segments(progs)
     ctx.note("mined_programs", len(progs))
     ctx.note("hold_segments", [{"name": s["name"], "shape": s["shape"], "scenarios": _lslocks.scenarios_of(s)} for s in segs])
